@@ -84,6 +84,35 @@ def gen_group(rng, n, profile):
     return items
 
 
+def lifecycle_groups():
+    """Structured multi-step sequences on ONE topic (each its own group, so that the population is fresh):
+    attach, change own mode (self-ban, junk, owner bit), detach, come back, unsubscribe, come back - for every
+    topic kind and session kind.  Random single messages almost never line up three dependent requests on the
+    same topic, yet several handler branches (un-self-ban, re-subscription of a deleted row, default access
+    of each topic category) are reachable only that way."""
+    def I(sess, m):
+        return Item("in", sess, G.dumps(m), shape_of(m), msg=m, gen="lifecycle")
+    gs = []
+    n = 0
+    for topic in ("me", "fnd", "sys", "@GG@", "@GC@", "@CC@", "@PP@", "@U2@", "new", "nch"):
+        for sess in ("att", "in", "root"):
+            for mode in ("N", "JP", "JRWPASDO", "J?"):
+                n += 1
+                i = "lc%d" % n
+                gs.append([
+                    I(sess, {"sub": {"id": i + "a", "topic": topic}}),
+                    I(sess, {"set": {"id": i + "b", "topic": topic, "sub": {"mode": mode}}}),
+                    I(sess, {"sub": {"id": i + "c", "topic": topic}}),
+                    I(sess, {"leave": {"id": i + "d", "topic": topic}}),
+                    I(sess, {"sub": {"id": i + "e", "topic": topic, "set": {"sub": {"mode": mode}}}}),
+                    I(sess, {"get": {"id": i + "f", "topic": topic, "what": "desc sub"}}),
+                    I(sess, {"leave": {"id": i + "g", "topic": topic, "unsub": True}}),
+                    I(sess, {"sub": {"id": i + "h", "topic": topic}}),
+                    I(sess, {"pub": {"id": i + "i", "topic": topic, "content": "x"}}),
+                ])
+    return gs
+
+
 def canonical_groups():
     """Corpus run first: the confirmed triggers and their neighbours (each its own group)."""
     def I(sess, s):
@@ -335,7 +364,7 @@ def fuzz(ctx, stats):
             rp = json.load(open(ctx.replay))["replay"]
             groups = [[Item(i["op"], i["session"], bytes.fromhex(i["hex"]), ("replay",), gen="replay") for i in rp["inputs"]]]
         else:
-            groups = canonical_groups()
+            groups = canonical_groups() + (lifecycle_groups() if ci == 0 or not quick else [])
             for gi in range(n_groups):
                 groups.append(gen_group(rng, glen, ["mixed", "mixed", "structured", "raw"][gi % 4] if gi % 8 != 7 else "raw"))
         crashed_shapes = {}
